@@ -300,9 +300,13 @@ impl Buffer {
 
         let layer = &mut self.layers[layer];
         for i in start_line..=end_line {
-            let line = &mut layer.lines[i as usize];
+            // rows that are not allocated yet are empty, nothing to move there
+            let Some(line) = layer.lines.get_mut(i as usize) else {
+                break;
+            };
             if line.chars.len() > start_column {
-                line.chars.insert(end_column as usize, AttributedChar::default());
+                let end_column = min(end_column as usize, line.chars.len());
+                line.chars.insert(end_column, AttributedChar::default());
                 line.chars.remove(start_column);
             }
         }
@@ -317,10 +321,15 @@ impl Buffer {
 
         let layer = &mut self.layers[layer];
         for i in start_line..=end_line {
-            let line = &mut layer.lines[i as usize];
+            // rows that are not allocated yet are empty, nothing to move there
+            let Some(line) = layer.lines.get_mut(i as usize) else {
+                break;
+            };
             if line.chars.len() > start_column {
                 line.chars.insert(start_column, AttributedChar::default());
-                line.chars.remove(end_column + 1);
+                if line.chars.len() > end_column + 1 {
+                    line.chars.remove(end_column + 1);
+                }
             }
         }
     }
@@ -400,7 +409,7 @@ impl Buffer {
     }
 
     fn remove_terminal_line(&mut self, layer: usize, line: i32) {
-        if line >= self.layers[layer].get_line_count() {
+        if line < 0 || line >= self.layers[layer].get_line_count() {
             return;
         }
         self.layers[layer].remove_line(line);
@@ -411,8 +420,11 @@ impl Buffer {
     }
 
     fn insert_terminal_line(&mut self, layer: usize, line: i32) {
+        if line < 0 {
+            return;
+        }
         if let Some((_, end)) = self.terminal_state.get_margins_top_bottom() {
-            if end < self.layers[layer].get_line_count() {
+            if (0..self.layers[layer].get_line_count()).contains(&end) {
                 self.layers[layer].lines.remove(end as usize);
             }
         }
